@@ -24,6 +24,7 @@
 (*      "discardraw" (seeded shape) the validators re-run after a discard  *)
 (*                  lose the aliaser: aliases they yield stay raw          *)
 (*      "flatname"  (seeded shape) flattened key collection reads names    *)
+(*      "arglookupname" (seeded shape) GraphQL arguments looked up by name *)
 (***************************************************************************)
 EXTENDS Naturals, Sequences, FiniteSets, TLC
 
@@ -57,6 +58,15 @@ Applies(view, d)     ==
     [] view = "loc_yield_after_discard" /\ "discardraw" \in Deviations    -> "id"
     [] OTHER -> d
 ViewName(view, cal, f, d) == App(Applies(view, d), Reads(view, cal, f))
+
+\* ---- resolver / operation parameters: aliased through parameters_metadata, no class aliaser.
+\* The name is PUBLISHED by the schema builder and LOOKED UP in kwargs by resolver_resolve:
+\* two code sites (deviation "arglookupname": the lookup uses the parameter name -- seeded shape)
+ParamExt(p, d) == App(d, Term(Base(p)))
+ParamViews == {"gql_arg_published", "gql_arg_lookup", "gql_arg_error_loc"}
+ParamView(view, p, d) ==
+  IF view = "gql_arg_lookup" /\ "arglookupname" \in Deviations THEN App(d, Term(p.name)) ELSE ParamExt(p, d)
+OneParamName(p, d) == \A v \in {"gql_arg_published", "gql_arg_lookup"} : ParamView(v, p, d) = ParamExt(p, d)
 
 \* ---- the law
 OneName(cal, f, d) == \A v \in Views : ViewName(v, cal, f, d) = Ext(cal, f, d)
